@@ -139,6 +139,8 @@ type walkResult struct {
 	XGroups    int
 	Compact    int
 	LargeVals  int
+	Lists      int
+	MaxGroupLevel int
 }
 
 // Walk traverses everything reachable from the given roots.
@@ -242,6 +244,25 @@ func (v *LedgerView) walkContent(w *walkResult, p *PReg, top RegID) *regViol {
 	if err != nil {
 		return err
 	}
+	var countGroups func(pe *PElements)
+	countGroups = func(pe *PElements) {
+		if pe == nil {
+			return
+		}
+		if pe.IsList {
+			w.Lists++
+		}
+		if pe.Level > w.MaxGroupLevel {
+			w.MaxGroupLevel = pe.Level
+		}
+		for i := range pe.Entries {
+			if pe.Entries[i].Kind == "group" {
+				w.Groups++
+				countGroups(pe.Entries[i].Group)
+			}
+		}
+	}
+	countGroups(p.MapElems)
 	_, groupRefs := p.Refs()
 	for _, g := range groupRefs {
 		w.Reached[g]++
